@@ -12,6 +12,12 @@ factor, sign convention and coefficient placement agrees with the continuous ope
          div(D grad phi), div(u phi), div(F), grad phi
      written in the orthogonal coordinates of the class (metric table h_a, (1/J)d_a(J/h_a), (1/J)d_a(J/h_a^2) below - the
      oracle, from vector calculus), for every sign of the velocity components (upwind).
+ K3  boundary faces: the flux functional of every boundary face (volume-weighted part of the adjacent row that is linear in
+     that face's coefficient, applied to smooth samples, the ghost sample taken at the mirrored ghost centre) has the same
+     leading order in eps as the interior-face functional expanded about the same point, for which K1 establishes the
+     limit.  Flux consistency at the boundary is necessary for convergence of a conservative scheme (an O(1) error in a
+     boundary flux is an O(1) error in the global balance); the first-order term is deliberately not compared (donor-cell
+     upwinding with the boundary value on the face differs there, legitimately).
  K2  boundary rows are the Robin relation with the metric factor (C03.B2) and the backward-Euler row is exact (C12.T1):
      exact identities proved there; referenced, not repeated.
 """
@@ -28,7 +34,8 @@ from .. import facts as F
 
 PROP = 'C02'
 RULES = {'K1': 'limit of the discrete operator on smooth fields == documented continuous operator (generic cell, graded spacing)',
-         'K2': 'boundary relation and time discretisation exact (C03.B2, C12.T1)'}
+         'K2': 'boundary relation and time discretisation exact (C03.B2, C12.T1)',
+         'K3': 'boundary-face flux functional has the leading order of the interior-face functional'}
 ASSUMPTIONS = ['smoothly graded spacing f[t+k] = X + eps*k*a + eps^2*k^2*b/2; smooth fields; a > 0; non-vanishing velocity components for the upwind limit',
                'the order of convergence, stability and the refinement behaviour itself are NOT decided',
                'TVD correction: consistency follows from C05.E4/E5 with psi(1)=1 (C13.F4); not expanded here because the limiter is opaque']
@@ -66,7 +73,12 @@ def unit(d, a, n=1):
 
 
 class Expander:
-    def __init__(self, w, order=3):
+    """face positions about the expansion point: f[anchor_k + o] = X_k + eps*o*a_k + eps^2*o^2*b_k/2.
+    anchor_k is the generic face index t_k, or - for the boundary analysis K3 - the index of the boundary face of axis
+    bnd[0] (0 or N); there the face beyond the boundary is the mirror image of the first interior one (the ghost cell has
+    the size of the adjacent cell, C10.G1).  Indices that are a constant offset from *another* reference of the axis (the
+    opposite end, the generic position) get an expansion of their own with independent symbols."""
+    def __init__(self, w, order=3, anchor=None, bnd=None):
         self.order = order
         self.w = w
         self.d = w.dim
@@ -74,15 +86,33 @@ class Expander:
         self.a = [Rat.atom(('ga', AX[k])) for k in range(self.d)]
         self.b = [Rat.atom(('gb', AX[k])) for k in range(self.d)]
         self.tid = [atom_id(('t', AX[k])) for k in range(self.d)]
+        self.anchor = list(anchor) if anchor is not None else list(w.t)
+        self.bnd = bnd
 
-    def offset(self, k, idx):
-        dlt = R(idx) - self.w.t[k]
-        if not dlt.is_const():
-            raise AnalysisError(f"index {idx} is not a constant offset from the generic position of axis {AX[k]}")
-        return dlt.const_value()
+    def offset(self, k, idx, tagged=False):
+        dlt = R(idx) - self.anchor[k]
+        if dlt.is_const():
+            return ('', dlt.const_value()) if tagged else dlt.const_value()
+        if tagged:
+            for tag, ref in (('lo', ZERO), ('hi', self.w.N[k]), ('gen', self.w.t[k])):
+                dl = R(idx) - ref
+                if dl.is_const():
+                    return tag, dl.const_value()
+        raise AnalysisError(f"index {idx} is not a constant offset from the expansion position of axis {AX[k]}")
 
     def face_pos(self, k, idx, rel=False):
-        o = self.offset(k, idx)
+        tag, o = self.offset(k, idx, tagged=True)
+        if tag:
+            if rel:
+                raise AnalysisError(f"a field sample at index {idx} of axis {AX[k]} is not adjacent to the expansion point")
+            ax = AX[k]
+            return Series.poly([Rat.atom(('X', ax, tag)), Rat.atom(('ga', ax, tag)) * o, Rat.atom(('gb', ax, tag)) * o * o / 2])
+        if self.bnd is not None and k == self.bnd[0] and ((self.bnd[1] == 'low' and o < 0) or (self.bnd[1] == 'high' and o > 0)):
+            if abs(o) != 1:
+                raise AnalysisError("face more than one cell beyond the boundary")
+            inner = Series.poly([ZERO, self.a[k] * (-o), self.b[k] / 2])
+            co = Series.poly([self.X[k] if not rel else ZERO]) - inner          # 2 f[0] - f[-+1]
+            return co
         co = [self.X[k] if not rel else ZERO, self.a[k] * o, self.b[k] * o * o / 2]
         return Series.poly(co)
 
@@ -217,6 +247,15 @@ def job(args):
                 last = e
         if last is not None:
             raise last
+        # ---- K3 boundary faces
+        if isinstance(res, ASparse) and res.issues:
+            continue
+        for a in range(d):
+            for side in ('low', 'high'):
+                try:
+                    _boundary_flux(w, res, cls, d, a, side, tname, cname, construct, fi, ob)
+                except ZeroDivisionError as e:
+                    ob('K3', f"{construct}/axis={AX[a]}/{side}", False, f"series expansion: {e}", fi.loc())
     # gradient components
     fi = sm.func('calculus', 'gradientTerm')
     units.add('calculus.gradientTerm')
@@ -248,6 +287,66 @@ def finalize(sm, rep, tier, results):
     good = (f(1) * f(1)) / (((f(1) + f(0)).scale(Rat.const(Fraction(1, 2)))) ** 2)
     bad = f(1) / (((f(1) + f(0)).scale(Rat.const(Fraction(1, 2)))) ** 2)
     rep.control('K1 distinguishes r_f^2/r_p^2 from r_f/r_p^2 in the limit', is_zero(good.coeff(0) - 1) and not is_zero(bad.coeff(0) - 1))
+
+
+def _face_functional(w, res, cell, akey):
+    """V(cell) * (part of the row of `cell` that is linear in the face-coefficient atom akey), applied to phi"""
+    aid = atom_id(akey)
+    V = w.vol_at(cell)
+    if isinstance(res, ASparse):
+        tot = ZERO
+        for e in w.matrix_row(res, cell):
+            co = F.lin_coeff(e['val'], aid)
+            if not co.is_zero():
+                tot = tot + co * Rat.atom(('phi',) + tuple(e['col']))
+        return V * tot
+    return V * F.lin_coeff(w.vector_at(res, cell), aid)
+
+
+def _boundary_flux(w, res, cls, d, a, side, tname, cname, construct, fi, ob):
+    """K3: leading order of the boundary-face flux functional == leading order of the generic interior one"""
+    from .c05 import zero_excluding_ties
+    t = w.t
+    i = ZERO if side == 'low' else w.N[a]
+    inner = tuple((ONE if side == 'low' else w.N[a]) if k == a else t[k] for k in range(d))
+    Tg = list(t)
+    bkey = F.face_atom_key(cname, a, i, Tg, w)
+    gkey = F.face_atom_key(cname, a, t[a], Tg, w)
+    gcell = tuple((t[a] + 1 if side == 'low' else t[a]) if k == a else t[k] for k in range(d))
+    cons = f"{construct}/axis={AX[a]}/{side}"
+    try:
+        B = _face_functional(w, res, inner, bkey)
+        G = _face_functional(w, res, gcell, gkey)
+    except ValueError as e:
+        ob('K3', cons, False, f"face coefficient enters non-linearly: {e}", fi.loc())
+        return
+    # identify the coefficient atom of the boundary face with the generic one (same physical face after the shift)
+    B = B.subs({atom_id(bkey): Rat.atom(gkey)})
+    lead = d - 1
+    last = None
+    for order in (3, 4, 5):
+        try:
+            exb = Expander(w, order, anchor=[i if k == a else t[k] for k in range(d)], bnd=(a, side))
+            exg = Expander(w, order)
+            sb = rat_to_series(B, exb.atom_series)
+            sg = rat_to_series(G, exg.atom_series)
+            if min(sb.top, sg.top) <= lead:
+                raise AnalysisError("series precision insufficient")
+            bad = []
+            for pw_ in range(min(sb.val, sg.val, lead), lead + 1):
+                dlt = sb.coeff(pw_) - sg.coeff(pw_)
+                if not zero_excluding_ties(dlt, 'jet'):
+                    bad.append((pw_, dlt))
+            gl = sg.coeff(lead)
+            ok = not bad
+            ob('K3', cons, ok, (f"boundary-face flux differs from the interior face flux at order eps^{bad[0][0]} (flux scale eps^{lead}): "
+                                f"difference {fmt_rat(bad[0][1], 8)}") if bad else f"leading-order flux {fmt_rat(gl, 5)} on both", fi.loc())
+            return
+        except AnalysisError as e:
+            if 'precision' not in str(e):
+                raise
+            last = e
+    raise last
 
 
 def _analyse_term(w, ex, res, P, cls, d, tname, construct, fi, ob, samples):
